@@ -28,6 +28,7 @@ def run(rep):
     rep.guard(e11, rep, w)
     rep.guard(e12, rep, w)
     rep.guard(e13, rep, w)
+    rep.guard(e15, rep, w)
     import c19
     rep.guard(c19.d4, rep, w)     # interpolation renders the value the expression produced: the string made is the one just formatted from it (a cache keyed by `==` gives -0 the text of 0)
     import c08
@@ -44,6 +45,10 @@ def run(rep):
     import c04_narrow
     rep.guard(c04_narrow.b4, rep, w)   # a loop / jump operand is the distance the compiler measured: a limit test on a different quantity lets it wrap, and the loop jumps somewhere else
     rep.guard(c04.b15, rep, w)    # `!(a != b)`: an operator is compiled by appending code, never by deleting what an earlier operator emitted (a stale offset deletes someone else's instruction)
+    import c02
+    rep.guard(c02.p13, rep, w, 'C05')   # a shift count (or any operand) narrowed with `as` wraps where the operator's definition saturates: 1 << 4294967297 is 0, not 2
+    import c18
+    rep.guard(c18.q3, rep, w)     # `for i in a..b` visits a, a+1, .. up to b: the cursor stops by comparing with the end, not by counting down a length that can wrap
 
 
 def arm_opcodes(w, f):
@@ -694,3 +699,35 @@ def e13(rep, w):
                     break
         r.check(ok, 'Value::%s == Value::%s has an arm' % (v, v), 'PartialEq for Value has no arm for two values of kind %s: they fall into the catch-all arm, so such a value is not equal to '
                 'itself (`var m = "abc".len; m == m` is false) and neither is a collection that holds it' % v, ef.loc())
+
+
+def e15(rep, w):
+    """`x op= e` reads x first and evaluates e second (e may assign x: `n += bump()`): the load of the target is emitted before the right-hand side
+    is compiled. One function does that (binary_assign: emit_variable_op, then expression), and every place that recognises a compound
+    assignment operator goes through it - a second way of compiling `+=` (a fused instruction that reads the target when it executes, after
+    the operand has been evaluated) changes the order."""
+    r = rep.rule('E15', 'a compound assignment loads its target before its right-hand side is compiled: only binary_assign compiles one, and it emits the load first', floor=3)
+    ba = w.require_fn(P + 'binary_assign', 'C05')
+    dom = ba.dominators()
+    loads = [bi for bi, t in ba.calls() if callee_name(t) in (P + 'emit_variable_op', P + 'emit_byte', P + 'emit_bytes')]
+    exprs = [bi for bi, t in ba.calls() if callee_name(t) in (P + 'expression', P + 'parse_precedence')]
+    if not exprs:
+        raise Broken('C05', 'anchor', 'binary_assign: the right-hand side (expression) is not compiled here')
+    r.check(all(any(l in dom.get(e, ()) and l != e for l in loads) for e in exprs), 'binary_assign: the load of the target is emitted before expression()',
+            'binary_assign compiles the right-hand side before it has emitted the load of the target: `x op= e` uses the value x has after e ran', ba.loc())
+    n = 0
+    for f in sorted(w.yarel.fns.values(), key=lambda x: x.path):
+        if not f.file.endswith('compiler.rs') or f.path == ba.path:
+            continue
+        tests = [bi for bi, t in f.calls() if callee_name(t) == P + 'match_binary_assignment']
+        if not tests:
+            continue
+        n += 1
+        through = {bi for bi, t in f.calls() if callee_name(t) == ba.path}
+        rhs = [bi for bi, t in f.calls() if callee_name(t) in (P + 'expression', P + 'parse_precedence')]
+        bad = [e for e in rhs if any(e in f.reachable_blocks(tb, avoid=through) and e != tb for tb in tests)]
+        r.check(bool(through) and not bad, '%s: a recognised compound operator is compiled by binary_assign' % f.path.replace(P, ''),
+                '%s compiles a right-hand side after recognising a compound assignment operator without going through binary_assign: the target is not loaded first, so '
+                '`x op= e` sees the value x has after e was evaluated' % f.path, f.loc(f.blocks[bad[0]]['t'].get('sp')) if bad else f.loc())
+    if n < 2:
+        raise Broken('C05', 'floor', 'E15: only %d functions test for a compound assignment operator' % n)
